@@ -1,21 +1,6 @@
-(* The facts about the two f64 thresholds of weighted_median that the balance
-   statement needs (thr_ok_b), for the TOLERANCE literal of the current source. *)
+(* Regression witness for the chunk count of the code before 3c3436b. *)
 From Coupe Require Import Lib.Prelude Lib.SFloat Model.GridRcb Proofs.GridRcbMedian Gen.GridRcbGen.
 Open Scope Z_scope.
-
-Lemma forallb_range (P : Z -> bool) (n : nat) :
-  forallb P (map Z.of_nat (seq 0 n)) = true -> forall t, 0 <= t < Z.of_nat n -> P t = true.
-Proof.
-  intros H t Ht. rewrite forallb_forall in H. apply H.
-  apply in_map_iff. exists (Z.to_nat t). split; [lia|]. apply in_seq. lia.
-Qed.
-
-(* by evaluation, for every total below 4096 (both weight types) *)
-Lemma thr_ok_small fw : forall t, 0 <= t < 4096 -> thr_ok_b fw gridrcb_tolerance_bits t = true.
-Proof.
-  intros t Ht. apply (forallb_range (thr_ok_b fw gridrcb_tolerance_bits) 4096); [|lia].
-  destruct fw; vm_compute; reflexivity.
-Qed.
 
 (* ---------- regression witness for the OLD chunk count ---------- *)
 
